@@ -172,8 +172,11 @@ def wipe_db():
     sqlite_lock.cleanup()
 
 
-def reset_process_state(uuid_seed=0, clock_offset=0.0):
-    """Bring the process back to 'fresh' between cases."""
+def reset_process_state(uuid_seed=0, clock_offset=0.0, keep_caches=False):
+    """Bring the process back to 'fresh' between cases.  keep_caches: leave
+    the engine's in-memory specification caches (and whatever hangs off the
+    cached objects) as the previous execution left them - "a later execution
+    in the same engine process"."""
     from mistral import context as auth_context
     from mistral.lang import parser as spec_parser
     from mistral.services import actions as action_service
@@ -181,7 +184,8 @@ def reset_process_state(uuid_seed=0, clock_offset=0.0):
     from mistral.executors import base as exe
     from mistral.scheduler import base as sched_base
     wipe_db()
-    spec_parser.clear_caches()
+    if not keep_caches:
+        spec_parser.clear_caches()
     try:
         action_service.get_test_action_provider().cleanup()
     except Exception:
